@@ -8,6 +8,10 @@ pub fn ufun_f64(id: u32, args: &[f64]) -> f64 {
     // fixed concrete stand-in for the abstract function symbols (same on both sides of the self-check)
     let mut acc = 0.375 + id as f64;
     for (i, x) in args.iter().enumerate() { acc = acc * 0.5 + x * (i as f64 + 1.25); }
+    // symbols that carry a scalar-level boolean (C20: is-Some / overflowed / approximately-equal): 0 or 1, so that
+    // both outcomes occur when programs are compared on concrete inputs
+    let is_flag = matches!(id, 100 | 102 | 104 | 106 | 108 | 110 | 112 | 114 | 221 | 223 | 225 | 240 | 241 | 242 | 251 | 261 | 266);
+    if is_flag { let h = (acc * 64.0).floor() as i64; return if h.rem_euclid(3) == 0 { 0.0 } else { 1.0 }; }
     acc
 }
 
